@@ -67,28 +67,114 @@ func entryPoints(c *Ctx) []*ssa.Function {
 type mutSummary struct {
 	memo map[string]bool
 	busy map[string]bool
+	prog *ssa.Program
+	impl map[string][]*ssa.Function // interface method name -> concrete methods of non-stdlib named types
+}
+
+// stdlib functions that write into the memory their first argument refers to
+var stdMutators = map[string]bool{
+	"slices.Sort": true, "slices.SortFunc": true, "slices.SortStableFunc": true, "slices.Reverse": true,
+	"slices.Compact": true, "slices.CompactFunc": true, "slices.Delete": true, "slices.DeleteFunc": true, "slices.Insert": true, "slices.Replace": true,
+	"sort.Slice": true, "sort.SliceStable": true, "sort.Sort": true, "sort.Stable": true, "sort.Ints": true, "sort.Strings": true, "sort.Float64s": true,
+	"maps.Copy": true, "maps.DeleteFunc": true, "maps.Insert": true,
+	"math/rand.Shuffle": false,
+}
+
+// refLike: can a value of this type refer to memory shared with where it was read from?
+func refLike(t types.Type) bool {
+	switch u := t.Underlying().(type) {
+	case *types.Slice, *types.Map, *types.Pointer, *types.Interface, *types.Chan, *types.Signature:
+		return true
+	case *types.Struct:
+		for i := 0; i < u.NumFields(); i++ {
+			if refLike(u.Field(i).Type()) {
+				return true
+			}
+		}
+	case *types.Array:
+		return refLike(u.Elem())
+	case *types.Tuple:
+		for i := 0; i < u.Len(); i++ {
+			if refLike(u.At(i).Type()) {
+				return true
+			}
+		}
+	}
+	return false
+}
+
+func (m *mutSummary) implementations(method *types.Func, recv types.Type) []*ssa.Function {
+	if m.prog == nil {
+		return nil
+	}
+	if m.impl == nil {
+		m.impl = map[string][]*ssa.Function{}
+		for _, pkg := range m.prog.AllPackages() {
+			if isStdlib(pkg.Pkg.Path()) {
+				continue
+			}
+			for _, mem := range pkg.Members {
+				tn, ok := mem.(*ssa.Type)
+				if !ok {
+					continue
+				}
+				for _, T := range []types.Type{tn.Type(), types.NewPointer(tn.Type())} {
+					ms := m.prog.MethodSets.MethodSet(T)
+					for k := 0; k < ms.Len(); k++ {
+						if f := m.prog.MethodValue(ms.At(k)); f != nil && len(f.Blocks) > 0 {
+							m.impl[f.Name()] = append(m.impl[f.Name()], f)
+						}
+					}
+				}
+			}
+		}
+	}
+	iface, _ := recv.Underlying().(*types.Interface)
+	var out []*ssa.Function
+	for _, f := range m.impl[method.Name()] {
+		if iface != nil && f.Signature.Recv() != nil && !types.Implements(f.Signature.Recv().Type(), iface) {
+			continue
+		}
+		out = append(out, f)
+	}
+	return out
 }
 
 // mutatesParam: does fn write through parameter i (element/field store, map update, copy/clear, or a callee that does)?
 func (m *mutSummary) mutatesParam(fn *ssa.Function, i int, depth int) bool {
+	mut, _ := m.paramSummary(fn, i, depth)
+	return mut
+}
+
+// paramSummary: (fn writes into memory reachable from parameter i, fn may return something that refers to that memory).
+func (m *mutSummary) paramSummary(fn *ssa.Function, i int, depth int) (bool, bool) {
 	if fn == nil || len(fn.Blocks) == 0 || i >= len(fn.Params) {
-		return false
+		return false, false
 	}
 	key := fmt.Sprintf("%s#%d", fn.String(), i)
 	if v, ok := m.memo[key]; ok {
-		return v
+		return v, m.memo[key+"/ret"]
 	}
 	if m.busy[key] || depth > 6 {
-		return false
+		return false, false
 	}
 	m.busy[key] = true
 	defer delete(m.busy, key)
-	res := mutatesValue(m, fn, fn.Params[i], depth)
-	m.memo[key] = res
-	return res
+	mut, ret := taintWalk(m, fn, fn.Params[i], depth)
+	m.memo[key] = mut
+	m.memo[key+"/ret"] = ret
+	return mut, ret
 }
 
 func mutatesValue(m *mutSummary, fn *ssa.Function, root ssa.Value, depth int) bool {
+	mut, _ := taintWalk(m, fn, root, depth)
+	return mut
+}
+
+// taintWalk follows, inside fn, every value that may refer to the memory root refers to (slices of it, its elements and
+// fields when they are references themselves, map values, boxed copies, results of callees that hand their argument back)
+// and reports whether that memory is written, and whether a reference to it is returned.
+func taintWalk(m *mutSummary, fn *ssa.Function, root ssa.Value, depth int) (mutated bool, returned bool) {
 	tainted := map[ssa.Value]bool{root: true}
 	work := []ssa.Value{root}
 	add := func(v ssa.Value) {
@@ -96,6 +182,22 @@ func mutatesValue(m *mutSummary, fn *ssa.Function, root ssa.Value, depth int) bo
 			tainted[v] = true
 			work = append(work, v)
 		}
+	}
+	addRef := func(v ssa.Value) {
+		if refLike(v.Type()) {
+			add(v)
+		}
+	}
+	stored := func(addr ssa.Value) bool {
+		if addr.Referrers() == nil {
+			return false
+		}
+		for _, rr := range *addr.Referrers() {
+			if st, ok := rr.(*ssa.Store); ok && st.Addr == addr {
+				return true
+			}
+		}
+		return false
 	}
 	for len(work) > 0 {
 		x := work[len(work)-1]
@@ -112,30 +214,70 @@ func mutatesValue(m *mutSummary, fn *ssa.Function, root ssa.Value, depth int) bo
 				add(in)
 			case *ssa.ChangeType:
 				add(in)
+			case *ssa.MakeInterface, *ssa.ChangeInterface:
+				addRef(in.(ssa.Value))
+			case *ssa.TypeAssert:
+				addRef(in)
+			case *ssa.Extract:
+				addRef(in)
 			case *ssa.Convert:
+			case *ssa.Lookup:
+				if in.X == x {
+					addRef(in)
+				}
+			case *ssa.Index:
+				if in.X == x {
+					addRef(in)
+				}
+			case *ssa.Field:
+				if in.X == x {
+					addRef(in)
+				}
+			case *ssa.Range:
+				add(in)
+			case *ssa.Next:
+				add(in)
+			case *ssa.UnOp:
+				// a load through a pointer into the memory: what is loaded is shared if it is a reference itself
+				if in.Op == token.MUL && in.X == x {
+					addRef(in)
+				}
 			case *ssa.IndexAddr:
 				if in.X == x {
-					for _, rr := range *in.Referrers() {
-						if st, ok := rr.(*ssa.Store); ok && st.Addr == in {
-							return true
-						}
+					if stored(in) {
+						return true, returned
 					}
+					add(in)
 				}
 			case *ssa.FieldAddr:
 				if in.X == x {
-					for _, rr := range *in.Referrers() {
-						if st, ok := rr.(*ssa.Store); ok && st.Addr == in {
-							return true
-						}
+					if stored(in) {
+						return true, returned
 					}
+					add(in)
 				}
 			case *ssa.MapUpdate:
 				if in.Map == x {
-					return true
+					return true, returned
 				}
 			case *ssa.Store:
 				if in.Addr == x {
-					return true
+					if _, local := x.(*ssa.Alloc); !local {
+						return true, returned
+					}
+				} else if in.Val == x {
+					// kept in a local variable: its loads refer to the same memory
+					if a, ok := in.Addr.(*ssa.Alloc); ok && a.Referrers() != nil {
+						for _, rr := range *a.Referrers() {
+							if u, ok := rr.(*ssa.UnOp); ok && u.Op == token.MUL && u.X == ssa.Value(a) {
+								addRef(u)
+							}
+						}
+					}
+				}
+			case *ssa.Return:
+				if refLike(x.Type()) {
+					returned = true
 				}
 			case ssa.CallInstruction:
 				com := in.Common()
@@ -143,22 +285,59 @@ func mutatesValue(m *mutSummary, fn *ssa.Function, root ssa.Value, depth int) bo
 					switch b.Name() {
 					case "copy", "clear", "delete":
 						if len(com.Args) > 0 && com.Args[0] == x {
-							return true
+							return true, returned
 						}
 					}
 					continue
 				}
-				if callee := com.StaticCallee(); callee != nil {
-					for ai, a := range com.Args {
-						if a == x && m.mutatesParam(callee, ai, depth+1) {
-							return true
+				var callees []*ssa.Function
+				argBase := 0
+				if com.IsInvoke() {
+					if com.Value == x {
+						callees = m.implementations(com.Method, com.Value.Type())
+					}
+					argBase = 1 // parameter 0 of the concrete method is the receiver
+				} else if callee := com.StaticCallee(); callee != nil {
+					callees = []*ssa.Function{callee}
+				}
+				for _, callee := range callees {
+					q := qualifiedFuncName(callee)
+					if o := callee.Origin(); o != nil {
+						q = qualifiedFuncName(o)
+					}
+					if isStdlib(fnPkgPath(callee)) || (callee.Origin() != nil && isStdlib(fnPkgPath(callee.Origin()))) {
+						if stdMutators[q] && len(com.Args) > 0 && com.Args[0] == x {
+							return true, returned
 						}
+						continue
+					}
+					check := func(pi int) {
+						mut, ret := m.paramSummary(callee, pi, depth+1)
+						if mut {
+							mutated = true
+						}
+						if ret {
+							if v, ok := in.(ssa.Value); ok {
+								addRef(v)
+							}
+						}
+					}
+					if com.IsInvoke() {
+						check(0)
+					}
+					for ai, a := range com.Args {
+						if a == x {
+							check(ai + argBase)
+						}
+					}
+					if mutated {
+						return true, returned
 					}
 				}
 			}
 		}
 	}
-	return false
+	return false, returned
 }
 
 func runC17(c *Ctx) {
@@ -174,7 +353,7 @@ func runC17(c *Ctx) {
 	ri := c.reachableFrom(roots...)
 	c.Extra("reachable_functions", len(ri.funcs))
 	c.Extra("reachable_module_functions", len(ri.module()))
-	sum := &mutSummary{memo: map[string]bool{}, busy: map[string]bool{}}
+	sum := &mutSummary{memo: map[string]bool{}, busy: map[string]bool{}, prog: c.Prog}
 
 	checkGlobalsIn(c, ri, sum, "R17.1", func(p string) bool { return strings.HasPrefix(p, modPath) }, ri.module())
 	checkCapturedState(c, ri)
